@@ -193,6 +193,41 @@ def project_fs(p: Project, img):
     img["symlinks"]["/w/ln_" + p.name] = root
 
 
+def compatible_edit(rng, text: str) -> str:
+    """A small edit that usually keeps a schema valid but changes what is
+    generated from it (and from files importing it)."""
+    toks = mutate.tokenize(text)
+    kind = rng.weighted([("width", 4), ("append", 3), ("comment", 2), ("cap", 2), ("const", 2)])
+    if kind == "width":
+        idx = [i for i, t in enumerate(toks) if re.match(r"u?int\d+$", t) and not (i >= 2 and toks[i - 2] == ":")]
+        if idx:
+            i = rng.choice(idx)
+            base = "uint" if toks[i].startswith("uint") else "int"
+            toks[i] = base + str(rng.choice([1, 3, 7, 8, 9, 15, 16, 24, 31, 32, 33, 64]))
+            return "".join(toks)
+    if kind == "cap":
+        idx = [i for i, t in enumerate(toks) if t.isdigit() and i >= 1 and toks[i - 1] == "[" ]
+        if idx:
+            i = rng.choice(idx)
+            toks[i] = str(int(toks[i]) + rng.randint(1, 3))
+            return "".join(toks)
+    if kind == "const":
+        m = list(re.finditer(r"^(const\s+\w+\s*=\s*)(\d+)\s*$", text, re.M))
+        if m:
+            mm = rng.choice(m)
+            return text[: mm.start(2)] + str(int(mm.group(2)) + rng.randint(1, 5)) + text[mm.end(2) :]
+    if kind == "comment":
+        lines = text.split("\n")
+        idx = [i for i, l in enumerate(lines) if re.match(r"\s*(message|enum|type|const)\b", l)]
+        if idx:
+            i = rng.choice(idx)
+            pad = re.match(r"\s*", lines[i]).group(0)
+            lines.insert(i, pad + "// edited: " + rng.choice(["v2", "see ticket 42", "do not remove"]))
+            return "\n".join(lines)
+    k = rng.below(1000)
+    return text.rstrip("\n") + "\n\nmessage Added%s {\n    bool flag = 1\n    uint%d n = 2\n}\n" % (schemagen.letters(k), rng.choice([3, 8, 17]))
+
+
 # --------------------------------------------------------------------- plans
 LANGS = ["c", "py", "go"]
 
@@ -502,15 +537,24 @@ def gen_plan(seed: int, mode: str):
             p = sched.choice(projects)
             nedit += 1
             er = rng.sub("edit", nedit)
-            if mode == "c18" and er.chance(0.7):
+            target = p.main
+            others = sorted(f for f in p.files if f != p.main)
+            if others and er.chance(0.45):
+                target = er.choice(others)  # an IMPORTED file changes on disk; the main file does not
+            if target != p.main:
+                newtext = compatible_edit(er, p.files[target]) if (mode == "c18" or er.chance(0.5)) else mutate.mutate(er, p.files[target], er.randint(1, 2))
+            elif mode == "c18" and er.chance(0.7):
                 # a different valid schema under the same path (often the same proto and type names)
                 m = re.search(r"^proto\s+(\w+)", p.files[p.main], re.M)
-                s2, _ = schemagen.generate(er, fleet=False, name=(m.group(1) if m and er.chance(0.7) else "edited"))
-                newtext = s2.text()
+                if len(p.files) == 1 and er.chance(0.6):
+                    s2, _ = schemagen.generate(er, fleet=False, name=(m.group(1) if m and er.chance(0.7) else "edited"))
+                    newtext = s2.text()
+                else:
+                    newtext = compatible_edit(er, p.files[p.main])
             else:
                 newtext = mutate.mutate(er, p.files[p.main], er.randint(1, 3)).replace("@SELF@", p.main).replace("@DIR@", p.name)
-            p.files[p.main] = newtext
-            ops.append({"op": "write", "path": p.root + "/" + p.main, "text": newtext})
+            p.files[target] = newtext
+            ops.append({"op": "write", "path": p.root + "/" + target, "text": newtext})
             # recompile right away, and once more later
             for st in cli_task(p):
                 st()
